@@ -212,6 +212,14 @@ Definition update_op (c : config) (live new : tv) (version : string) (managers :
 
 (* ---- prune and add-back (update.go:256-366) ---- *)
 
+Fixpoint value_size (v : value) : nat :=
+  match v with
+  | VList l => S (fold_right (fun x acc => value_size x + acc) O l)
+  | VMap m => S (fold_right (fun kv acc => value_size (snd kv) + acc) O m)
+  | _ => 1
+  end.
+
+
 Definition to_fs (c : config) (o : tv) : option pset :=
   to_field_set (schema_of c (fst o)) (tr_of c (fst o)) (snd o).
 
@@ -221,9 +229,9 @@ Definition en (c : config) (ver : string) (s : pset) : pset :=
 Definition remove_tv (c : config) (o : tv) (items : pset) : tv :=
   (fst o, remove (schema_of c (fst o)) (tr_of c (fst o)) (snd o) items).
 
-(* addBackOwnedItemsForVersion *)
+(* addBackOwnedItemsForVersion; the boolean tells whether anything was added back *)
 Definition add_back_for_version (c : config) (n : nat) (merged pruned : tv) (version : string)
-  (managedSet : pset) : ures (tv * tv * nat) :=
+  (managedSet : pset) : ures (tv * tv * bool * nat) :=
   let '(r1, n1) := convert c n merged version in
   match r1 with
   | CMissing => UErr EPanic   (* the Go code carries on with a nil object *)
@@ -241,7 +249,11 @@ Definition add_back_for_version (c : config) (n : nat) (merged pruned : tv) (ver
               let toRemove :=
                 ps_diff (en c version mergedSet)
                         (ps_union (en c version prunedSet) (en c version managedSet)) in
-              UOk (merged', remove_tv c merged' toRemove, n2)
+              let pruned'' := remove_tv c merged' toRemove in
+              match to_fs c pruned'' with
+              | Some newSet => UOk (merged', pruned'', negb (ps_equals newSet prunedSet), n2)
+              | None => UErr EOther
+              end
           | _, _ => UErr EOther
           end
       end
@@ -255,29 +267,47 @@ Definition managed_at_version (mf : managed) : list (string * pset) :=
                assoc_set v (ps_union cur (mr_set (snd mr))) acc)
             mf [].
 
+(* one round of passes over the versions, in the given order *)
+Definition add_back_round (c : config) (mav : list (string * pset)) (versions : list string)
+  (n : nat) (merged pruned : tv) : ures (tv * tv * bool * nat) :=
+  fold_left (fun (acc : ures (tv * tv * bool * nat)) v =>
+               match acc with
+               | UErr e => UErr e
+               | UOk (m, p, ch, n) =>
+                   match assoc_get v mav with
+                   | Some s =>
+                       match add_back_for_version c n m p v s with
+                       | UErr e => UErr e
+                       | UOk (m', p', added, n') => UOk (m', p', ch || added, n')
+                       end
+                   | None => acc
+                   end
+               end) versions (UOk (merged, pruned, false, n)).
+
+(* addBackOwnedItems: the pruned version first, then the others; with more than one
+   version the rounds are repeated until nothing more is added back (update.go, as
+   repaired: a field owned at one version beneath an item owned only at another) *)
+Fixpoint add_back_rounds (fuel : nat) (c : config) (mav : list (string * pset)) (versions : list string)
+  (n : nat) (merged pruned : tv) : ures (tv * nat) :=
+  match fuel with
+  | O => UErr EOther
+  | S fuel' =>
+      match add_back_round c mav versions n merged pruned with
+      | UErr e => UErr e
+      | UOk (m, p, changed, n') =>
+          if changed && Nat.leb 2 (List.length versions)
+          then add_back_rounds fuel' c mav versions n' m p
+          else UOk (p, n')
+      end
+  end.
+
 Definition add_back_owned (c : config) (n : nat) (merged pruned : tv) (prunedVersion : string)
   (mf : managed) : ures (tv * nat) :=
   let mav := managed_at_version mf in
-  let first : ures (tv * tv * nat) :=
-    match assoc_get prunedVersion mav with
-    | Some s => add_back_for_version c n merged pruned prunedVersion s
-    | None => UOk (merged, pruned, n)
-    end in
+  let first := match assoc_get prunedVersion mav with Some _ => [prunedVersion] | None => [] end in
   let others := cfg_version_order c (map fst (assoc_remove prunedVersion mav)) in
-  let r :=
-    fold_left (fun (acc : ures (tv * tv * nat)) v =>
-                 match acc with
-                 | UErr e => UErr e
-                 | UOk (m, p, n) =>
-                     match assoc_get v mav with
-                     | Some s => add_back_for_version c n m p v s
-                     | None => acc
-                     end
-                 end) others first in
-  match r with
-  | UErr e => UErr e
-  | UOk (_, p, n) => UOk (p, n)
-  end.
+  (* every round that changes something adds at least one node of the merged object *)
+  add_back_rounds (S (S (value_size (snd merged)))) c mav (first ++ others) n merged pruned.
 
 (* addBackDanglingItems *)
 Definition add_back_dangling (c : config) (n : nat) (merged pruned : tv) (last : mrec)
